@@ -72,14 +72,15 @@ class Reply:
         if sec is None:
             return tree.encode()
         if sec.get("priv_alg") and sec.get("encrypt", True):
-            sp = snmp.find(tree, "scoped-pdu")
-            plain = sp.encode()
-            cipher = usm.priv_encrypt(sec["priv_alg"], sec["priv_kul"], sec["boots"], sec["time"], sec["salt"], plain)
-            enc = ber.prim(0x04, cipher, name="encrypted")
-            top = tree
-            top.children[3] = enc
+            pos = next((i for i, c in enumerate(tree.children or []) if c.name == "scoped-pdu"), None)
+            if pos is not None:
+                plain = tree.children[pos].encode()
+                cipher = usm.priv_encrypt(sec["priv_alg"], sec["priv_kul"], sec["boots"], sec["time"], sec["salt"], plain)
+                tree.children[pos] = ber.prim(0x04, cipher, name="encrypted")
         if sec.get("auth_alg") and sec.get("sign", True):
             a = snmp.find(tree, "usm-auth")
+            if a is None or a.children is not None:
+                return tree.encode()
             a.content = b"\0" * 12
             mac = usm.hmac96(sec["auth_alg"], sec["auth_kul"], tree.encode())
             mode = sec.get("mac", "valid")
